@@ -578,6 +578,19 @@ def stage_edges(ctx, st):
     nreads = st["reads"][0] if quick else st["reads"][1]
     nwrites = st["writes"][0] if quick else st["writes"][1]
     pool = states
+    if st.get("state_pred") == "nil_corner":
+        # states where the indexed field x is absent from one document and explicitly nil in another:
+        # the index holds both under the nil key, the criteria tell them apart
+        def nil_corner(h):
+            if not any(e.get("op") == "CreateIndex" and e.get("f") == [120] for e in h):
+                return False
+            docs = [d for e in h if e.get("op") in ("Insert", "Save", "ReplaceById") for d in e.get("docs", [])]
+            lack = any(not any(p[0] == [120] for p in d[1]) for d in docs)
+            nil = any(any(p[0] == [120] and p[1] == ["nil"] for p in d[1]) for d in docs)
+            return lack and nil
+        pool = [h for h in states if nil_corner(h)]
+        if not pool:
+            raise Inconclusive("no model state has the nil corner")
     if st.get("rich_states"):
         # the states with the most content (documents, indexes): where planner cells are not vacuous
         pool = sorted(states, key=lambda h: -len(json.dumps(h)))[:st["rich_states"]]
